@@ -193,11 +193,14 @@ func (mw *Middleware) processLocationErr(
 	// We've got a bad ECS option.  Log and respond with a FORMERR immediately.
 	optslog.Debug1(ctx, mw.logger, "ecs error", slogutil.KeyError, origErr)
 
+	// The request has been answered at this point.  Do not return origErr,
+	// since the server responds to an error from the handler with a SERVFAIL,
+	// which would follow the FORMERR (plain DNS, DoT, DNSCrypt) or replace it
+	// (DoH, DoQ).
 	resp := mw.messages.NewRespRCode(req, dns.RcodeFormatError)
-	writeErr := rw.WriteMsg(ctx, req, resp)
-	writeErr = errors.Annotate(writeErr, "writing formerr resp: %w")
+	err = rw.WriteMsg(ctx, req, resp)
 
-	return errors.WithDeferred(origErr, writeErr)
+	return errors.Annotate(err, "writing formerr resp: %w")
 }
 
 // handleDeviceResult processes the device result and indicates whether the
